@@ -951,3 +951,30 @@ def len_norm(t):
                 return atom(("call", "len", (b[1],), ()))
         return None
     return T.subst(t, f)
+
+
+def dnf(conds, limit=128):
+    """the cases of a conjunction of guards that may nest disjunctions and conjunctions: a list of conjunct lists (bounded;
+    when the bound is hit the remaining structure is kept as opaque conjuncts, which only makes cases coarser)"""
+    def term(t, depth=0):
+        a = t.single_atom() if isinstance(t, T.R) else None
+        if a is not None and a[0] == "or" and depth < 8:
+            out = []
+            for x in a[1]:
+                out.extend(term(x, depth + 1))
+            return out[:limit] if len(out) <= limit else [[t]]
+        if a is not None and a[0] == "and" and depth < 8:
+            cases = [[]]
+            for x in a[1]:
+                sub_ = term(x, depth + 1)
+                cases = [k + s for k in cases for s in sub_]
+                if len(cases) > limit:
+                    return [[t]]
+            return cases
+        return [[t]]
+    cases = [[]]
+    for c_ in conds:
+        sub_ = term(c_)
+        new = [k + s for k in cases for s in sub_]
+        cases = new if len(new) <= limit else [k + [c_] for k in cases]
+    return cases
